@@ -1,3 +1,6 @@
 -- Root of the `Koreo` library: models (core Lean only) and property theorems.
 import Koreo.Json
 import Koreo.Props.C03
+import Koreo.Props.C06
+import Koreo.Props.C07
+import Koreo.Props.C08
